@@ -27,6 +27,8 @@ type c18Case struct {
 	JSON string    `json:"json,omitempty"` // if set: the number literal is sent through zjson instead
 	// InMap: the value is the entry "n" of a map[string]any parsed by a struct schema (data providers see it first)
 	InMap bool `json:"inMap,omitempty"`
+	// InSlice: the value is an element of a typed Go slice ([]int64, []float32, []string ...) parsed by a slice schema
+	InSlice bool `json:"inSlice,omitempty"`
 }
 
 var plainNumberRe = regexp.MustCompile(`^[+-]?[0-9]+(\.[0-9]*)?([eE][+-]?[0-9]+)?$`)
@@ -98,7 +100,24 @@ func propC18(c c18Case) hh.Verdict {
 	var res *model.Result
 	var destVal reflect.Value
 	env := &model.Env{}
-	if c.JSON != "" || c.InMap {
+	if c.InSlice {
+		root := &model.Node{Kind: model.KSlice, Elem: n}
+		root.Number()
+		schema, typ := model.Build(root, env)
+		dest := reflect.New(typ)
+		one := c.In.Go()
+		in := reflect.MakeSlice(reflect.SliceOf(reflect.TypeOf(one)), 2, 2)
+		in.Index(1).Set(reflect.ValueOf(one)) // (the first element is the type's zero value)
+		res = model.Run(schema, env, model.Exec{Mode: "parse"}, in.Interface(), dest)
+		if res.Panic == nil && res.NoIssues() && dest.Elem().Len() != 2 {
+			return hh.Fail("a list of 2 elements was accepted as %d elements", dest.Elem().Len())
+		}
+		if dest.Elem().Len() == 2 {
+			destVal = dest.Elem().Index(1)
+		} else {
+			destVal = reflect.New(typ.Elem()).Elem()
+		}
+	} else if c.JSON != "" || c.InMap {
 		root := &model.Node{Kind: model.KStruct, Fields: []model.Field{{Key: "n", Node: n}}}
 		root.Number()
 		schema, typ := model.Build(root, env)
@@ -259,7 +278,15 @@ func c18Boundary() []*big.Int {
 	return out
 }
 
-func c18Cells(yield func(c18Case)) {
+func c18Cells(yield0 func(c18Case)) {
+	// every Go-typed source also as an element of a typed slice
+	yield := func(c c18Case) {
+		yield0(c)
+		if c.JSON == "" && !c.InMap && c.In.T != "jsonnum" {
+			c.InSlice = true
+			yield0(c)
+		}
+	}
 	fits := func(b *big.Int, bits int, signed bool) bool {
 		if signed {
 			lo := new(big.Int).Neg(new(big.Int).Lsh(big.NewInt(1), uint(bits-1)))
@@ -368,13 +395,13 @@ func TestC18(t *testing.T) {
 			}
 			return c18Case{Kind: kind, In: model.Str(s)}
 		case 0:
-			return c18Case{Kind: kind, In: model.Int64(rapid.Int64().Draw(rt, "i64"))}
+			return c18Case{Kind: kind, In: model.Int64(rapid.Int64().Draw(rt, "i64")), InSlice: rapid.Bool().Draw(rt, "insl")}
 		case 1:
-			return c18Case{Kind: kind, In: model.Int(int(rapid.Int64().Draw(rt, "i")))}
+			return c18Case{Kind: kind, In: model.Int(int(rapid.Int64().Draw(rt, "i"))), InSlice: rapid.Bool().Draw(rt, "insl")}
 		case 2:
-			return c18Case{Kind: kind, In: model.F64(rapid.Float64().Draw(rt, "f64"))}
+			return c18Case{Kind: kind, In: model.F64(rapid.Float64().Draw(rt, "f64")), InSlice: rapid.Bool().Draw(rt, "insl")}
 		case 3:
-			return c18Case{Kind: kind, In: model.F32(rapid.Float32().Draw(rt, "f32"))}
+			return c18Case{Kind: kind, In: model.F32(rapid.Float32().Draw(rt, "f32")), InSlice: rapid.Bool().Draw(rt, "insl")}
 		case 4:
 			f := rapid.Float64().Draw(rt, "fs")
 			return c18Case{Kind: kind, In: model.Str(fmt.Sprintf(rapid.SampledFrom([]string{"%v", "%.0f", "%e", "%.3f"}).Draw(rt, "fmt"), f))}
